@@ -14,6 +14,7 @@ import (
 	"testing"
 	"time"
 
+	yaml "gopkg.in/yaml.v2"
 	"pgregory.net/rapid"
 
 	"verif/harness/internal/cfgwriter"
@@ -22,6 +23,7 @@ import (
 	"verif/harness/internal/kchild"
 	"verif/harness/internal/kjob"
 	"verif/harness/internal/model"
+	"verif/harness/internal/oracle"
 	"verif/harness/internal/spec"
 )
 
@@ -38,7 +40,7 @@ type c15Case struct {
 }
 
 var c15Defects = []string{"missing-file", "empty-file", "yaml-syntax", "wrong-type", "unknown-syscall", "unknown-syscall-conditional", "unknown-action",
-	"unknown-default-action", "unknown-operation", "no-seccomp-key", "empty-syscalls", "argument-index-6", "oversize-program", "unprivileged-without-nnp", "binary-garbage"}
+	"unknown-default-action", "unknown-operation", "no-seccomp-key", "empty-syscalls", "argument-index-6", "oversize-program", "unprivileged-without-nnp", "binary-garbage", "entry-without-arguments", "entry-with-empty-arguments"}
 
 func drawC15(t *rapid.T) c15Case {
 	c := c15Case{Spelling: rapid.Uint64().Draw(t, "spelling"), NNP: true}
@@ -241,7 +243,24 @@ func c15PolicyText(c *c15Case) (text string, writeFile bool) {
 		}
 		lines = out
 	}
-	return strings.Join(lines, "\n"), true
+	text = strings.Join(lines, "\n")
+	if c.Defect == "entry-without-arguments" || c.Defect == "entry-with-empty-arguments" {
+		// a first group with a conditional entry that has no conditions at all
+		name, action := c15BareEntry(c)
+		g := "  - action: " + oracle.ActionName(action) + "\n    names_with_args:\n    - name: " + name + "\n"
+		if c.Defect == "entry-with-empty-arguments" {
+			g += "      arguments: []\n"
+		}
+		text = strings.Replace(text, "  syscalls:\n", "  syscalls:\n"+g, 1)
+	}
+	if c.Defect == "yaml-syntax" {
+		// the injected edit must really be a syntax error (judged by a YAML parser, not by the code under test)
+		var any interface{}
+		if yaml.Unmarshal([]byte(text), &any) == nil {
+			text += "\n  broken: [unclosed, {\n"
+		}
+	}
+	return text, true
 }
 
 type c15Run struct {
@@ -252,6 +271,17 @@ type c15Run struct {
 	stderr   string
 	marker   bool
 	timedOut bool
+}
+
+// c15BareEntry: which probe gets the condition-less entry, and with which action
+// (one that differs from the default, so that a silently dropped rule is visible).
+func c15BareEntry(c *c15Case) (string, uint32) {
+	name := probeNames[c.Pos%len(probeNames)]
+	action := actErrno
+	if c.Policy.Default == actErrno {
+		action = actAllow
+	}
+	return name, action
 }
 
 func runSandbox(c *c15Case, text string, writeFile bool) (*c15Run, error) {
@@ -293,6 +323,12 @@ func runSandbox(c *c15Case, text string, writeFile bool) (*c15Run, error) {
 	}
 	var so, se bytes.Buffer
 	cmd.Stdout, cmd.Stderr = &so, &se
+	if cmd.SysProcAttr == nil {
+		cmd.SysProcAttr = &syscall.SysProcAttr{}
+	}
+	cmd.SysProcAttr.Setpgid = true
+	cmd.Cancel = func() error { return syscall.Kill(-cmd.Process.Pid, syscall.SIGKILL) }
+	cmd.WaitDelay = 2 * time.Second
 	runErr := cmd.Run()
 	r := &c15Run{stdout: so.String(), stderr: se.String(), timedOut: ctx.Err() == context.DeadlineExceeded}
 	if ee, ok := runErr.(*exec.ExitError); ok {
@@ -328,6 +364,20 @@ func checkC15(raw json.RawMessage) (ev.Result, error) {
 		return ev.Result{}, ev.Inconclusivef("sandbox timed out")
 	}
 	res := ev.Result{Classes: []string{fmt.Sprintf("uid:%d", c.Uid), fmt.Sprintf("nnp:%v", c.NNP)}}
+	if c.Defect == "entry-without-arguments" || c.Defect == "entry-with-empty-arguments" {
+		// Either the file is refused, or the entry applies to every call of that syscall. What must not
+		// happen is that the file is accepted and the rule silently never matches.
+		res.Classes = append(res.Classes, "invalid:"+c.Defect)
+		if !run.marker && (run.exit != 0 || run.signaled) {
+			res.Classes = append(res.Classes, "entry-without-conditions:rejected")
+			res.NonTrivial = true
+			return res, nil
+		}
+		name, action := c15BareEntry(&c)
+		c.Policy.Groups = append([]spec.Group{{Action: action, Names: []string{name}}}, c.Policy.Groups...)
+		res.Classes = append(res.Classes, "entry-without-conditions:accepted-as-unconditional")
+		c.Defect = ""
+	}
 	if c.Defect != "" {
 		res.Classes = append(res.Classes, "invalid:"+c.Defect)
 		if run.marker {
